@@ -382,5 +382,70 @@ func (a *Adv) MembershipProbes() int {
 			}
 		}
 	}
+	n += a.ephemeralOtherKindProbe()
 	return n
+}
+
+// ephemeralOtherKindProbe: a parent that claims to have been created earlier in the block (unassigned leaf index, no
+// accumulator check) must be exactly a siacoin output created earlier in the block. The probe is a fresh block of three
+// v2 transactions: T1 spends a stored output and creates an output Y plus attestations; T2 spends, as an ephemeral
+// parent, an element with Y's contents but the ID of one of the attestations (an element of another kind; the probe
+// tries every attestation, so one of them sits at the same position of its kind as Y does among the siacoin
+// elements the block has recorded); T3 spends the real Y. The value of Y would leave the block twice: rejected.
+// Control: the block without T2 is accepted.
+func (a *Adv) ephemeralOtherKindProbe() int {
+	// below EphemeralOutputHeight a claimed ephemeral parent is only looked up, not compared with what the block created
+	// (the documented legacy window the hardfork closed); the claim starts at that height
+	if !a.v2Allowed() || a.Child < a.G.C.Net.HardforkV2.EphemeralOutputHeight {
+		return 0
+	}
+	median := MedianTimestamp(a.CS)
+	for _, el := range a.G.C.Store.SortedSC() {
+		lock, known := a.G.W.Locks[el.SiacoinOutput.Address]
+		if !known || el.MaturityHeight > a.Child || el.SiacoinOutput.Value.IsZero() || !lock.Spendable(true, a.Child, median) {
+			continue
+		}
+		sp, ok := Satisfy(lock.Policy, types.Hash256{}, a.CS.Index.Height, median)
+		if !ok {
+			continue
+		}
+		pk := MakeLock(LockSpec{Kind: NumV1Kinds, K1: 1})
+		psp, ok := Satisfy(pk.Policy, types.Hash256{}, a.CS.Index.Height, median)
+		if !ok || !pk.Spendable(true, a.Child, median) {
+			return 0
+		}
+		t1 := types.V2Transaction{
+			SiacoinInputs:  []types.V2SiacoinInput{{Parent: el.Copy(), SatisfiedPolicy: sp}},
+			SiacoinOutputs: []types.SiacoinOutput{{Value: el.SiacoinOutput.Value, Address: pk.Address()}},
+		}
+		for k := 0; k < 3; k++ {
+			t1.Attestations = append(t1.Attestations, types.Attestation{PublicKey: Pub(1), Key: "probe", Value: []byte{byte(k)}})
+		}
+		SignV2(a.CS, &t1, SignOpts{})
+		y := t1.EphemeralSiacoinOutput(0)
+		t3 := types.V2Transaction{
+			SiacoinInputs:  []types.V2SiacoinInput{{Parent: y.Copy(), SatisfiedPolicy: psp}},
+			SiacoinOutputs: []types.SiacoinOutput{{Value: y.SiacoinOutput.Value, Address: types.Address{0xE5}}},
+		}
+		SignV2(a.CS, &t3, SignOpts{})
+		mk := func(txns ...types.V2Transaction) types.Block {
+			return types.Block{Timestamp: NextTimestamp(a.CS, 0, 0), MinerPayouts: []types.SiacoinOutput{{Address: types.Address{0xAA}}}, V2: &types.V2BlockData{Transactions: txns}}
+		}
+		n := 0
+		a.emit(mk(t1, t3), "fresh-single-spend/v2-ephemeral-parent-after-attestations", "accept", nil, nil)
+		for k := range t1.Attestations {
+			forged := y.Copy()
+			forged.ID = types.SiacoinOutputID(t1.AttestationID(t1.ID(), k))
+			t2 := types.V2Transaction{
+				SiacoinInputs:  []types.V2SiacoinInput{{Parent: forged, SatisfiedPolicy: psp}},
+				SiacoinOutputs: []types.SiacoinOutput{{Value: y.SiacoinOutput.Value, Address: types.Address{0xE4}}},
+			}
+			SignV2(a.CS, &t2, SignOpts{})
+			if a.emit(mk(t1, t2, t3), "v2-parent/siacoin-ephemeral/id-of-attestation-created-in-block", "reject", nil, nil) {
+				n++
+			}
+		}
+		return n
+	}
+	return 0
 }
